@@ -92,3 +92,68 @@ def module_state(ctx, rule: str) -> None:
                                       f'reads module-level object {gq}, which is written by '
                                       f'{", ".join(writers)}', facts={'object': gq})
         ctx.ok(rule, f'{q}: no module-level, class-level, closure or memoised state', f.loc())
+
+
+# Calls that change interpreter- or library-wide settings: what one chunk switches, every other chunk being processed in
+# the same process sees (and a `with` that restores the setting restores it for the others too, at the wrong moment).
+PROCESS_WIDE_SWITCHES = {
+    'warnings.catch_warnings': 'the list of warning filters (module-level, swapped and restored non-atomically)',
+    'warnings.simplefilter': 'the list of warning filters', 'warnings.filterwarnings': 'the list of warning filters',
+    'warnings.resetwarnings': 'the list of warning filters',
+    'numpy.seterr': 'the floating-point error handling', 'numpy.seterrcall': 'the floating-point error handling',
+    'numpy.set_printoptions': 'the print options', 'numpy.setbufsize': 'the ufunc buffer size',
+    'pandas.set_option': 'the pandas options', 'pandas.reset_option': 'the pandas options',
+    'pandas.option_context': 'the pandas options', 'pandas.options': 'the pandas options',
+    'locale.setlocale': 'the locale', 'os.chdir': 'the working directory', 'os.putenv': 'the environment',
+    'os.umask': 'the file mode mask', 'sys.setrecursionlimit': 'the recursion limit', 'sys.settrace': 'the trace hook',
+    'sys.setprofile': 'the profile hook', 'logging.disable': 'the logging threshold',
+    'logging.basicConfig': 'the root logger', 'logging.captureWarnings': 'the routing of warnings',
+    'gc.disable': 'the garbage collector', 'gc.enable': 'the garbage collector', 'gc.set_threshold': 'the garbage collector',
+    'signal.signal': 'the signal handlers', 'socket.setdefaulttimeout': 'the default socket timeout',
+    'time.tzset': 'the time zone', 'matplotlib.use': 'the matplotlib backend',
+    'matplotlib.pyplot.switch_backend': 'the matplotlib backend', 'sklearn.set_config': 'the scikit-learn configuration',
+    'sklearn.config_context': 'the scikit-learn configuration (thread-local only from 1.0 on)',
+}
+PROCESS_WIDE_METHODS = {'setLevel': 'the level of a logger (loggers are process-wide objects)',
+                        'addHandler': 'the handlers of a logger', 'removeHandler': 'the handlers of a logger',
+                        'addFilter': 'the filters of a logger'}
+
+
+def process_wide_switches(ctx, rule: str) -> None:
+    """No function on the processing path flips an interpreter- or library-wide switch."""
+    fx = effects(ctx)
+    p = ctx.project
+    reach = processing_path(fx)
+    n = 0
+    for q in sorted(reach):
+        f = p.funcs[q]
+        for e in fx.own_events(q):
+            if e.kind not in ('call', 'with'):
+                continue
+            n += 1
+            head = call_head(e) if e.kind == 'call' else None
+            if e.kind == 'with' and tag(e.value) == 'call' and tag(e.value[1]) == 'g':
+                head = e.value[1][1]
+            what = PROCESS_WIDE_SWITCHES.get(head or '')
+            c = getattr(e, 'call', None)
+            if what is None and e.kind == 'call' and tag(c) == 'mcall' and c[2] in PROCESS_WIDE_METHODS and \
+                    T.contains(c[1], lambda x: tag(x) == 'call' and x[1] == ('g', 'logging.getLogger') or
+                               (tag(x) == 'g' and x[1].endswith('.logger'))):
+                what, head = PROCESS_WIDE_METHODS[c[2]], f'logger.{c[2]}'
+            if what is None and head and head.rsplit('.', 1)[-1] in PROCESS_WIDE_METHODS and \
+                    ('.logger.' in head or head.startswith('logging.')):
+                what, head = PROCESS_WIDE_METHODS[head.rsplit('.', 1)[-1]], 'logger.' + head.rsplit('.', 1)[-1]
+            if what is None and e.kind == 'call' and tag(c) == 'mcall' and tag(T.root(c[1])) == 'g' and \
+                    T.root(c[1])[1] == 'os.environ' and c[2] in ('update', 'pop', 'setdefault', 'clear', '__setitem__'):
+                what, head = 'the environment', 'os.environ.' + c[2]
+            if what is not None:
+                ctx.violation(rule, q, e.node, e.loc(),
+                              f'{head} changes {what}: a setting of the whole process, switched while other chunks are being '
+                              'processed (threads) - their warnings become errors, their output changes - and restored at a '
+                              'moment that suits this chunk only',
+                              instance=f'{q}: no process-wide switch ({head})')
+        for e in fx.own_events(q):
+            if e.kind == 'store' and e.base is not None and tag(T.root(e.base)) == 'g' and T.root(e.base)[1] == 'os.environ':
+                ctx.violation(rule, q, e.node, e.loc(), 'os.environ is written on the processing path: the environment is shared '
+                              'by every chunk of the process', instance=f'{q}: no process-wide switch (os.environ)')
+    ctx.floor(rule, 'calls and with-blocks on the processing path scanned for process-wide switches', n, 200)
